@@ -54,6 +54,7 @@ import OxiddModel.Mtbdd.DriverThresholdV
 import OxiddModel.Tdd.DriverThresholdV
 import OxiddModel.Bcdd.DriverThresholdV
 import OxiddModel.Reorder.DriverZbddSwap
+import OxiddModel.Bcdd.DriverPickO
 
 open OxiddModel
 
@@ -127,7 +128,9 @@ def protos : List (String × Proto) := [
   ("c14ttv", OxiddModel.Tdd.ThresholdDriverV.proto),
   ("c14tcv", OxiddModel.Bcdd.ThresholdDriverV.proto),
   ("zbdd-swap", OxiddModel.Reorder.DriverZbddSwap.proto),
-  ("zbdd-swap-fixed", OxiddModel.Reorder.DriverZbddSwap.protoFixed)
+  ("zbdd-swap-fixed", OxiddModel.Reorder.DriverZbddSwap.protoFixed),
+  ("pickord-bcdd", OxiddModel.PickO.Driver.C.proto),
+  ("pickord-zbdd", OxiddModel.PickO.Driver.Z.proto)
 ]
 
 def main (args : List String) : IO UInt32 := do
